@@ -90,6 +90,6 @@ func findings(path string) {
 	k := defaultRaw()
 	k.ProxyUID, k.ProxyGID, k.RedirectDNS, k.DNSV4, k.IPv6 = ",", ",", true, []string{"10.96.0.10"}, true
 	v := applyCase(k, k, []string{"apply", "same", "0", "0", "1", "0", "ok"})
-	line("c20:cleanup-leaves-jump-target-only-chain", strings.HasPrefix(v, "OBS apply:cleanup-leaves-jump-target-only-chain"),
+	line("c20:cleanup-leaves-jump-target-only-chain", strings.HasPrefix(v, "KNOWN c20:cleanup-leaves-jump-target-only-chain"),
 		"CleanupOnly_over_its_own_rules:_"+strings.ReplaceAll(v, " ", "_"))
 }
